@@ -3,20 +3,28 @@
 (git apply ... ; check ; git checkout -- .).  Writes seeded/<id>/detect.json."""
 import json, os, subprocess, sys, time
 ids = sys.argv[1:]
+# --wt <dir>: apply the change in that scratch worktree of /repo and point the check at it (VERIF_REPO); the check then
+# writes no evidence.  Without --wt the change is applied to /repo itself and undone straight afterwards.
+WT = '/repo'
+if ids and ids[0] == '--wt':
+    WT = ids[1]; ids = ids[2:]
 for sid in ids:
     d = '/verif/seeded/%s/' % sid
     prop = sid[:3]
-    assert subprocess.run('git -C /repo status --porcelain', shell=True, capture_output=True, text=True).stdout.strip() == '', '/repo not clean'
-    subprocess.run('git -C /repo apply %spatch.diff' % d, shell=True, check=True)
+    assert subprocess.run('git -C %s status --porcelain -uno' % WT, shell=True, capture_output=True, text=True).stdout.strip() == '', WT + ' not clean'
+    subprocess.run('git -C %s apply %spatch.diff' % (WT, d), shell=True, check=True)
     t0 = time.time()
     try:
-        p = subprocess.run('./check %s --tier quick' % prop, cwd='/verif', shell=True, stdout=subprocess.PIPE, stderr=subprocess.STDOUT, text=True, timeout=3600)
+        p = subprocess.run('./check %s --tier quick' % prop, cwd='/verif', shell=True, stdout=subprocess.PIPE, stderr=subprocess.STDOUT, text=True, timeout=3600,
+                           env=dict(os.environ, VERIF_REPO=WT))
         out, rc = p.stdout, p.returncode
     finally:
-        subprocess.run('git -C /repo checkout -- .', shell=True, check=True)
+        subprocess.run('git -C %s checkout -- .' % WT, shell=True, check=True)
+        if WT == '/repo': subprocess.run('git -C /verif checkout -- evidence', shell=True)
     lines = [l for l in out.split('\n') if l.startswith('VIOLATION') or l.startswith('UNDECIDED') or l.startswith('MACHINERY') or l.startswith(prop + ' tier')]
     res = {'seed': sid, 'property': prop, 'check_cmd': './check %s --tier quick' % prop, 'exit': rc, 'wall_s': round(time.time() - t0, 1),
            'detected': rc == 1 and any(l.startswith('VIOLATION') for l in lines), 'lines': [l[:400] for l in lines][:12]}
+    res['tree'] = WT
     json.dump(res, open(d + 'detect.json', 'w'), indent=1)
     print(sid, 'exit', rc, 'detected', res['detected'], '%.0fs' % res['wall_s'], flush=True)
     for l in lines[:4]: print('    ', l[:260], flush=True)
